@@ -672,10 +672,12 @@ macro_rules! lemma_f {
                     if $mode & 1 != 0 {
                         assert!(expect == Err(e));
                     }
-                    kani::cover!(e == GeneratorError::TooLargeInput);
-                    kani::cover!(e == GeneratorError::TooSmallInput);
-                    kani::cover!(e == GeneratorError::BucketsAreThreeQuarterEmpty);
-                    kani::cover!(e == GeneratorError::BucketsAreHalfEmpty);
+                    if $mode != 0 {
+                        kani::cover!(e == GeneratorError::TooLargeInput);
+                        kani::cover!(e == GeneratorError::TooSmallInput);
+                        kani::cover!(e == GeneratorError::BucketsAreThreeQuarterEmpty);
+                        kani::cover!(e == GeneratorError::BucketsAreHalfEmpty);
+                    }
                 }
                 Ok(h) => {
                     if $mode & 1 != 0 {
